@@ -24,6 +24,8 @@ import (
 	metav1 "k8s.io/apimachinery/pkg/apis/meta/v1"
 	"k8s.io/apimachinery/pkg/runtime"
 	"k8s.io/apimachinery/pkg/runtime/schema"
+	"k8s.io/apimachinery/pkg/runtime/serializer"
+	clienttesting "k8s.io/client-go/testing"
 	"sigs.k8s.io/controller-runtime/pkg/client"
 	"sigs.k8s.io/controller-runtime/pkg/client/fake"
 
@@ -50,6 +52,18 @@ type vopSpec struct {
 func vopI32(v int32) *int32 { return &v }
 func vopI64(v int64) *int64 { return &v }
 func vopBool(v bool) *bool  { return &v }
+
+// vopLongName returns a DNS-1123 subdomain of exactly n characters (labels of at most 63).
+func vopLongName(n int) string {
+	if n <= 63 {
+		return strings.Repeat("a", n)
+	}
+	first := 63
+	if n == 64 { // never leave an empty label after the dot
+		first = 62
+	}
+	return strings.Repeat("a", first) + "." + vopLongName(n-first-1)
+}
 
 func vopReplicasStr(p *int32) string {
 	if p == nil {
@@ -164,9 +178,20 @@ func vopScheme() (*runtime.Scheme, error) {
 	return s, nil
 }
 
-func vopNewClient(scheme *runtime.Scheme, cluster *kafscalev1alpha1.KafscaleCluster, extra ...client.Object) client.WithWatch {
+// vopClientBuilder is the controller-runtime fake client over client-go's plain object tracker. The
+// builder's default (field-managed) tracker builds a client-go scheme, type converters and a static
+// REST mapper per client (~20 ms); it differs only in managedFields bookkeeping for server-side apply,
+// which the operator does not use. resourceVersion and status-subresource semantics live in
+// controller-runtime's versioned tracker and are identical.
+func vopClientBuilder(scheme *runtime.Scheme, cluster *kafscalev1alpha1.KafscaleCluster, extra ...client.Object) *fake.ClientBuilder {
 	objs := append([]client.Object{cluster}, extra...)
-	return fake.NewClientBuilder().WithScheme(scheme).WithStatusSubresource(&kafscalev1alpha1.KafscaleCluster{}).WithObjects(objs...).Build()
+	tracker := clienttesting.NewObjectTracker(scheme, serializer.NewCodecFactory(scheme).UniversalDecoder())
+	return fake.NewClientBuilder().WithScheme(scheme).WithObjectTracker(tracker).
+		WithStatusSubresource(&kafscalev1alpha1.KafscaleCluster{}).WithObjects(objs...)
+}
+
+func vopNewClient(scheme *runtime.Scheme, cluster *kafscalev1alpha1.KafscaleCluster, extra ...client.Object) client.WithWatch {
+	return vopClientBuilder(scheme, cluster, extra...).Build()
 }
 
 // vopListKinds returns every list kind of the scheme outside the kafscale.io group (the
